@@ -366,14 +366,26 @@ def check_locked(cfg, tier, seed, replay=None):
     model_ok = True
     make_out = ""
     with Lock():
-        tools_ok = build_tools(log, pid, cfg.get("harness", True))
+        tools_ok = build_tools(log, pid, cfg.get("harness", True) and not cfg.get("parts"))
+        if tools_ok and cfg.get("parts"):
+            import props as _props
+            for part in cfg["parts"]:
+                pc = _props.PROPS.get(part, {})
+                if pc.get("harness_cmd"):
+                    HARNESS_CMD[part] = pc["harness_cmd"]
+                tools_ok = tools_ok and build_tools(log, part, True)
         if not tools_ok:
             problems.append({"kind": "build", "detail": "translator or harness does not build against the current /repo tree",
                              "output": log[-1][2][-3000:]})
         else:
             if not translate(cfg.get("gen", []), log):
                 problems.append({"kind": "translator", "detail": "go2coq failed", "output": log[-1][2][-3000:]})
-            rc_m, out_m = coq_make(cfg.get("model_targets", []), log) if cfg.get("model_targets") else (0, "")
+            mts = list(cfg.get("model_targets", []))
+            if cfg.get("parts"):
+                import props as _props
+                for part in cfg["parts"]:
+                    mts += [t for t in _props.PROPS.get(part, {}).get("model_targets", []) if t not in mts]
+            rc_m, out_m = coq_make(mts, log) if mts else (0, "")
             if rc_m != 0:
                 model_ok = False
                 broken += broken_obligations(out_m)
@@ -402,38 +414,69 @@ def check_locked(cfg, tier, seed, replay=None):
         if a not in allowed_ax:
             problems.append({"kind": "axiom", "detail": "theorem depends on an axiom not named in the trusted base: " + a})
 
-    # ---- harness + correspondence
+    # ---- harness + correspondence (one run per part for a composite property)
     meta = {}
     failures, known_hits = [], []
     mismatches, case_errors, n_case_files = [], [], 0
-    if tools_ok and cfg.get("harness", True):
-        args = [os.path.join(BUILD, "bin", HARNESS_CMD.get(pid, pid.lower()) + SUFFIX), outdir, tier, str(seed)]
+    descs = {}
+    known_props = [pid] + list(cfg.get("parts", [])) + list(cfg.get("known_props", []))
+    runs = []
+    if tools_ok and cfg.get("parts"):
+        import props as _props
+        for part in cfg["parts"]:
+            pc = _props.PROPS.get(part, {})
+            runs.append((part, HARNESS_CMD.get(part, pc.get("harness_cmd", part.lower())), os.path.join(outdir, part),
+                         bool(pc.get("mismatch_is_failure"))))
+    elif tools_ok and cfg.get("harness", True):
+        runs.append((pid, HARNESS_CMD.get(pid, pid.lower()), outdir, bool(cfg.get("mismatch_is_failure"))))
+    part_mismatch_is_failure = False
+    for rid, rbin, rdir, rmif in runs:
+        os.makedirs(rdir, exist_ok=True)
+        args = [os.path.join(BUILD, "bin", rbin + SUFFIX), rdir, tier, str(seed)]
         if replay:
             args.append(replay)
         try:
-            rc, out = sh(args, timeout=cfg.get("harness_timeout", 3000), env=dict(GOENV, VERIF_REPO=REPO, VERIF_PROP=pid))
+            rc, out = sh(args, timeout=cfg.get("harness_timeout", 3000), env=dict(GOENV, VERIF_REPO=REPO, VERIF_PROP=rid))
         except subprocess.TimeoutExpired:
             rc, out = 124, "harness timed out"
-        log.append(("harness", rc, out))
+        log.append(("harness " + rid, rc, out))
         if rc != 0:
-            problems.append({"kind": "harness", "detail": "harness exited with %d" % rc, "output": out[-3000:]})
-        else:
-            meta = json.load(open(os.path.join(outdir, "meta.json")))
-            known = load_known()
-            for f in meta.get("failures") or []:
-                hit = next((e for e in known if finding_matches(e, pid, f)), None)
-                if hit:
-                    known_hits.append((hit, f))
-                else:
-                    failures.append(f)
-            if model_ok:
-                n_case_files, mismatches, case_errors = run_cases(outdir)
-                for e in case_errors:
-                    problems.append({"kind": "correspondence", "detail": "model could not be evaluated on " + e["file"],
-                                     "output": e["output"]})
+            problems.append({"kind": "harness", "detail": "harness %s exited with %d" % (rid, rc), "output": out[-3000:]})
+            continue
+        pm = json.load(open(os.path.join(rdir, "meta.json")))
+        # merge the parts' metadata
+        for k in ("evaluations", "distinct_nontrivial", "cases"):
+            meta[k] = int(meta.get(k, 0)) + int(pm.get(k, 0))
+        meta.setdefault("samples", []).extend((pm.get("samples") or [])[:3])
+        for k in ("streams", "distribution", "extra"):
+            d0 = meta.setdefault(k, {})
+            for kk, vv in (pm.get(k) or {}).items():
+                d0[(rid + ":" + kk) if len(runs) > 1 else kk] = vv
+        known = load_known()
+        for f in pm.get("failures") or []:
+            if cfg.get("failure_classes") and f.get("class") not in cfg["failure_classes"]:
+                continue      # this property is only about these classes of failure (e.g. panic / hang)
+            hit = next((e for e in known if any(finding_matches(e, kp, f) for kp in known_props)), None)
+            if hit:
+                known_hits.append((hit, f))
             else:
-                problems.append({"kind": "correspondence", "detail": "model does not compile; correspondence not run"})
-    descs = load_descs(outdir)
+                failures.append(f)
+        if model_ok and not cfg.get("skip_correspondence"):
+            n1, mm, ce = run_cases(rdir)
+            n_case_files += n1
+            dd = load_descs(rdir)
+            base = len(descs) + 1000000 * len([1 for x in runs if x[0] < rid]) if len(runs) > 1 else 0
+            for i in mm:
+                mismatches.append(base + i)
+                descs[base + i] = (rid + ": " if len(runs) > 1 else "") + dd.get(i, "?")
+            if mm and rmif:
+                part_mismatch_is_failure = True
+            for e in ce:
+                case_errors.append(e)
+                problems.append({"kind": "correspondence", "detail": "model could not be evaluated on %s %s" % (rid, e["file"]),
+                                 "output": e["output"]})
+        elif not model_ok:
+            problems.append({"kind": "correspondence", "detail": "model does not compile; correspondence not run"})
 
     # ---- verdict
     lines = []
@@ -448,7 +491,7 @@ def check_locked(cfg, tier, seed, replay=None):
     if failures:
         violation = {"kind": "failing-input", "failure": failures[0], "more": failures[1:20], "found": True}
     elif mismatches:
-        violation = {"kind": "correspondence", "found": bool(cfg.get("mismatch_is_failure")),
+        violation = {"kind": "correspondence", "found": bool(cfg.get("mismatch_is_failure")) or part_mismatch_is_failure,
                      "detail": "implementation and proven model disagree on %d case(s)" % len(mismatches),
                      "cases": [{"id": i, "case": descs.get(i, "?")} for i in mismatches[:20]],
                      "correspondence": cfg.get("corr_name", pid + "/Corr.v mismatches = []")}
